@@ -86,6 +86,7 @@ func buildPlan(env *runner.Env) {
 		{"chain", pick(3000, 100000)},
 		{"chain-ue", buildSysPlan(seeds, th)},
 		{"ctx-ue", buildCtxUEPlan(th)},
+		{"ctx-trunc", buildCtxTruncPlan(th)},
 		{"sei-ue", buildSEIUEPlan(seeds, th)},
 		{"ps-struct", buildStructPlan(th)},
 		{"flip", pick(12000, 600000)},
@@ -173,20 +174,11 @@ func init() {
 			"a file that announces many samples is allowed to cost time proportional to that number: stsz without table with a huge sample_count and size 0 (4 billion empty samples in a 1 KiB file) is not generated",
 			"'memory bounded by a small multiple of the input length' is read as the fixed bound 8 MiB + 1024*len per library call (DESIGN.md C04/C16) and 512 MiB + 1024*len resident set per tool run; the 256x allocation of sei.ExtractSEIData for an ff-run size field is inside it and recorded as an observation (maxima.sei_extraction_*), the largest tool resident set as maxima.tool_max_rss_kib",
 		},
-		Setup: func(env *runner.Env) error {
-			s, err := loadSeeds(env)
-			if err != nil {
-				if len(setupViol) > 0 {
-					// the library panicked on the seeds themselves: report that (case 0) instead of failing
-					plan, planTotal = []planEntry{{"setup-only", 1}}, 1
-					return nil
-				}
-				return err
-			}
-			seeds = s
-			defaultMaps = buildDefaultMaps(s)
-			loadRealMP4s(env)
-			buildPlan(env)
+		Setup: setupAll,
+		ParentInit: func(env *runner.Env) error {
+			// the library calls of plan construction are vetted once, here; the workers and their probes read the verdicts
+			// (guard.go). An error is left to the workers to report.
+			_ = setupAll(env)
 			return nil
 		},
 		NumCases:        func(env *runner.Env) int { return planTotal },
@@ -197,6 +189,29 @@ func init() {
 		CaseCPUSec:      6,
 		MemLimitMB:      3072,
 	})
+}
+
+// setupAll loads the seeds and builds the plan. Every library call on the way
+// is vetted in a bare probe process or looked up in the verdict file of the
+// run (guard.go); the verdicts obtained here are published for the processes
+// started from this one.
+func setupAll(env *runner.Env) error {
+	vetInit(env.Scratch, env.RepoDir, env.Tier)
+	defer vetPublish(env.Scratch)
+	s, err := loadSeeds(env)
+	if err != nil {
+		if len(setupViol) > 0 {
+			// the library failed on the seeds themselves: report that (case 0) instead of failing
+			plan, planTotal = []planEntry{{"setup-only", 1}}, 1
+			return nil
+		}
+		return err
+	}
+	seeds = s
+	defaultMaps = buildDefaultMaps(s)
+	loadRealMP4s(env)
+	buildPlan(env)
+	return nil
 }
 
 func run(c *runner.Ctx, idx int) {
@@ -224,6 +239,8 @@ func run(c *runner.Ctx, idx int) {
 		j = genChainUE(x, c, sub)
 	case "ctx-ue":
 		j = genCtxUE(x, c, sub)
+	case "ctx-trunc":
+		j = genCtxTrunc(x, c, sub)
 	case "sei-ue":
 		j = genSEIUE(x, c, sub)
 	case "ps-struct":
